@@ -131,6 +131,27 @@ def run(chk):
         refused_others = len([r for r in res if r[0] != "5" and r[1] != "ok"])
         if refused_others:
             chk.monitor_fail("%d peers were refused their first request" % refused_others, dict(case=c[:300], impl=a[:300]))
+    # Block mode, peers independent: while a request of one peer is parked waiting for that peer's next cell (period 1.5 s),
+    # another peer's first request goes straight through (generous real-time margin: 700 ms)
+    hol = []
+    for i in range(2 if quick else 8):
+        rng = chk.rng
+        burst = rng.choice([1, 2])
+        pa, pb = rng.choice([(1, 2), (6, 12), (3, 9), (0, 4)])
+        hol.append("ratelayer %s 1500 %d %s" % ("block" if i % 2 == 0 else "block+same", burst, " ".join(["%d@0" % pa] * (burst + 2) + ["%d@60" % pb] * burst)))
+    for c, a in zip(hol, run_impl("layers", hol, shards=len(hol))):
+        chk.evaluations += 1
+        chk.nontriv(c)
+        chk.count("ratelayer-block-two-peers")
+        if a.startswith(("PANIC", "CRASH", "TIMEOUT", "HANG")):
+            chk.monitor_fail("rate limit layer panicked / hung", dict(case=c, impl=a[:300]))
+            continue
+        t = c.split()
+        burst, pb = int(t[3]), t[-1].split("@")[0]
+        res = [x.split(":") for x in a.split(" | ")[0].split()]
+        late = [r for r in res if r[0] == pb and (r[1] != "ok" or int(r[3]) - int(r[2]) > 700_000_000)]
+        if late:
+            chk.monitor_fail("Block mode: peer %s's first %d request(s), well within its own quota, waited %s ms while another peer's request was parked on that peer's quota" % (pb, burst, [(int(r[3]) - int(r[2])) // 1000000 if r[1] == "ok" else r[1] for r in late]), dict(case=c, impl=a[:400]))
     ri = run_impl("layers", rl, shards=len(rl))
     for c, a in zip(rl, ri):
         chk.evaluations += 1
